@@ -21,19 +21,32 @@ def showParsed (isReq : Bool) (p : Parsed) : String :=
   let hs := if p.headers.isEmpty then "-" else "|".intercalate (p.headers.map fun kv => showBytes kv.1 ++ ":" ++ showBytes kv.2)
   s!"rc=0 start={st} hdr={hs} body={showBytes p.body} end=0"
 
+/-- the fragments the harness delivers for a `cuts` argument (`-` = whole; zero lengths skipped; the rest is one more fragment) -/
+def fragsOf (w : Bytes) (cuts : String) : List Bytes :=
+  let ls := if cuts = "-" then [] else (cuts.splitOn ",").filterMap String.toNat?
+  let rec go (w : Bytes) : List Nat → List Bytes
+    | [] => if w.isEmpty then [] else [w]
+    | l :: r => if w.isEmpty then [] else if l = 0 then go w r else w.take l :: go (w.drop l) r
+  go w ls
+/-- the incremental search of `append_bytes` run over exactly these fragments -/
+def hendOf (w : Bytes) (cuts : String) : String :=
+  match scanFrags [] (fragsOf w cuts) with
+  | some p => s!" hend={p}"
+  | none => " hend=none"
+
 def step (_ : Unit) (toks : List String) : Unit × String :=
   match toks with
-  | "req" :: h :: _ =>
+  | "req" :: h :: rest =>
     let w := unhex h
     if w.isEmpty then ((), "rc=1") else
     match parseRequest w with
-    | some p => ((), showParsed true p)
+    | some p => ((), showParsed true p ++ hendOf w (rest.headD "-"))
     | none => ((), "rc=-1")
   | "resp" :: h :: rest =>
     let w := unhex h
     if w.isEmpty then ((), "rc=1") else
     match parseResponse w (rest.getLast? = some "HEAD") with
-    | some p => ((), showParsed false p)
+    | some p => ((), showParsed false p ++ hendOf w (rest.headD "-"))
     | none => ((), "rc=-1")
   | _ => ((), "bad-op")
 
